@@ -187,4 +187,25 @@ def SeqInst.decode (I : SeqInst) (x : List Rat) : Except Err (List (List Nat)) :
       | some (ts', r) => go (v + 1) fuel ts' (acc ++ [r])
   go 0 I.V ts []
 
+/-! ### list-parameterised decoder
+
+The same loops as `SeqInst.decode`, but on an explicitly given list of tuples (so that a caller can supply tuples
+read from a CACHE instead of the ones recomputed from the instance).  `SeqInst.decode` itself is unchanged;
+`VrpProofs/Lemmas/CacheFlags.lean: SeqInst.decode_eq_tuples` proves
+`I.decode x = if (I.selected x).isEmpty then .ok [] else seqDecodeTuples I.g I.V I.L (I.selected x ++ I.fixedOnes)`. -/
+
+/-- `for vi in range(self.max_vehicles):` on an already sorted tuple list (the loop `go` of `SeqInst.decode` with
+    the graph and the sequence length as parameters) -/
+def seqDecodeGo (g : Graph) (L : Nat) : Nat → Nat → List STup → List (List Nat) → Except Err (List (List Nat))
+  | _, 0, _, acc => .ok acc
+  | v, fuel + 1, ts, acc =>
+    match decodeVehicle g v L 0 ts none [] with
+    | none => .error .index
+    | some (ts', r) => seqDecodeGo g L (v + 1) fuel ts' (acc ++ [r])
+
+/-- `get_routes` from the point where `soln_var_tuples` (selected tuples followed by the tuples fixed to 1) is complete:
+    lexicographic sort, then one pass per vehicle -/
+def seqDecodeTuples (g : Graph) (V L : Nat) (ts : List STup) : Except Err (List (List Nat)) :=
+  seqDecodeGo g L 0 V (sortS ts) []
+
 end Vrp
